@@ -11,11 +11,16 @@ for f in sorted(glob.glob(str(V / "seeded" / "*" / "meta.json"))):
 text = """## 14. Seeded changes: which check catches what
 
 Every change below was written by a fresh sub-agent that was given only the text of the property and its own scratch
-worktree (nothing from /verif). Each was confirmed here: the patch applies to HEAD, its demonstration exits 1 on the
-changed tree and 0 on the unchanged tree, the stable baseline tests of the touched area still pass with it
-(`tools/test_seed.sh`), and the property's quick check was run against the changed tree (`tools/try_seed.sh`, via
-`VERIF_REPO`). "after-strengthening" = the first run missed it; the check was strengthened (what was changed is in
-`meta.json` and section 13) and then reported it, while still passing on the unchanged tree.
+worktree (nothing from /verif), in four rounds (a-b, c-d, e-f, g-h; each round was told to avoid the code sites and mechanisms
+of the earlier ones). Each was confirmed here: the patch applies to the repository (`applies_to_repo_commit` in `meta.json`), its
+demonstration exits 1 on the changed tree and 0 on the unchanged tree, and the property's quick check was run against the
+changed tree (`tools/try_seed.sh`, via `VERIF_REPO`). That the existing tests do not notice the change was established by the
+seeder's before / after comparison of the test modules covering the touched code (recorded per seed) and, for the first round,
+also by `tools/test_seed.sh` on the stable baseline tests of the touched area. "after-strengthening" = the first run missed it;
+the check was strengthened (what was changed is in `meta.json` and section 13) and then reported it, while still passing on the
+unchanged tree. The misses had one cause almost throughout: a dimension of the property's quantifier (an option, a boundary value,
+a key order, an interleaving, a heterogeneous population) that the driver did not vary; sections 13 and 15 and the coverage
+audits (`tools/AUDIT_BRIEF.md`) record how the drivers and specifications were widened.
 
 | Seed | Property | Caught | What it needs to manifest | Violation signature(s) reported by the check |
 |---|---|---|---|---|
